@@ -29,7 +29,7 @@ META = dict(
                       "methods; (C) every x in [0,p) for each of the 17 field primes; (D) all "
                       "four point encodings and SPKI DER with coordinates fully symbolic on "
                       "secp112r1, secp112r2, NIST256p, NIST521p",
-                thorough="(A) n <= 131"),
+                thorough="(A) toy curves over p <= 31"),
     stubs=eg.STUBS + ecstub.STUBS,
     outside=["the group law (C06/C07)", "PEM text other than the armour of a DER covered in (D)"],
     assumptions=["z3 sound", "instrumented source executes like the original"],
